@@ -252,16 +252,25 @@ PROPS = {
     },
     "C17": {
         "module": "HctlProofs.Props.C17",
-        "theorems": ["Hctl.C17.mem_loadFormulae", "Hctl.C17.loadFormulae_order", "Hctl.C17.loadFormulae_idem", "Hctl.C17.trim_trim"],
+        "extra_modules": ["HctlProofs.Lemmas.CliModel"],
+        "theorems": ["Hctl.C17.mem_loadFormulae", "Hctl.C17.loadFormulae_order", "Hctl.C17.loadFormulae_idem", "Hctl.C17.trim_trim",
+                     "Hctl.C17.analyse_eq_api_ext", "Hctl.C17.analyse_eq_api_plain", "Hctl.C17.analyse_correct",
+                     "Hctl.C17.parseAll_of_prep", "Hctl.C17.mem_listed", "Hctl.C17.counts_mono"],
         "ks": ["k9"],
         "spec_tied": ["k9"],
         "bins": True,
         "full": False,
-        "not_proved": "partial: only the formula-file loader is modelled and proved; that the tool's evaluation equals the library's is "
-                      "established by running the binary built from the working tree and comparing archive, counts and listed states "
-                      "with the library API in-process (testing); it follows in the model from C04 + C15",
+        "not_proved": "partial by nature: the tool's pipeline from the CONTENT of the formula file to the archived sets, the printed counts "
+                      "and the listed states is modelled (Cli.analyse: loader, parser choice by -e, validation against the plain "
+                      "context, number of variable sets = maximum over the formulae, label lookup per tree, one shared cache, file "
+                      "order) and proved equal to the model's library entry points on the graph with that many variable sets "
+                      "(analyse_eq_api_ext/_plain), hence, end to end, a message or exactly the satisfaction sets in file order and "
+                      "never a panic (analyse_correct); outside the model: reading files, the model-file parsers (aeon/bnet/sbml), "
+                      "clap, the zip container, exit codes and the formatting of numbers — exercised by running the binary",
         "rule": "K9: loader on generated file layouts (comments, blanks, CRLF, NBSP, '#' after blanks) vs the model; process runs of the "
-                "binary: model formats aeon/bnet/sbml x 4 print options x with/without context archive, 9 error scenarios",
+                "binary: model formats aeon/bnet/sbml x 4 print options x with/without context archive — archived sets, printed "
+                "trees, counts and listed states compared with the MODEL of the tool (requests cli / cliprint) and with the library "
+                "API in-process; 9 error scenarios (4 of them also against the model's message kind)",
         "assumptions": ["a context archive was written for a graph with the number of spare variable sets the tool will build"],
     },
     "C19": {
@@ -438,10 +447,12 @@ MANIFEST_TEXT.update({
                     "formulae.txt is formula i. Correspondence: the real zip entries and reload vs the model; oracle: set equality after "
                     "reload on a graph rebuilt from the archived model, and reloaded sets used as wild-card context.",
             "note": _GLUE_NOTE, "technique": "Lean 4 proof (list lemmas over a model of Path::extension/strip_suffix/lines) + differential correspondence check"},
-    "C17": {"text": "Lean theorems about the formula-file loader (what is kept, order, idempotence on its own output). The rest of the "
-                    "property is decided by running the binary built from the working tree and comparing archive, counts, listed states "
-                    "and error behaviour with the library in-process.",
-            "note": _GLUE_NOTE, "technique": "Lean 4 proof (loader) + differential correspondence check of the built binary against the library"},
+    "C17": {"text": "Lean theorems: the formula-file loader (what is kept, order, idempotence) and the tool's pipeline as a function of "
+                    "the file contents (Cli.analyse) — equal to the model's library entry points on the graph with the maximal needed "
+                    "number of variable sets, so a message or exactly the satisfaction sets in file order, never a panic "
+                    "(analyse_correct). Correspondence: the binary built from the working tree is run and its archive, printed trees, "
+                    "counts and listed states are compared with the model of the tool and with the library in-process.",
+            "note": _GLUE_NOTE, "technique": "Lean 4 proof (loader + tool pipeline) + differential correspondence check of the built binary against the model and the library"},
     "C19": {"text": "Lean theorems, full statement on the converter model: the flattened function under a valuation of the fresh constants "
                     "equals the input under the induced instantiation, generated names are unambiguous, every instantiation is induced "
                     "(so the family is exactly preserved), parameter-free functions are unchanged, unregulated variables untouched. "
